@@ -5,7 +5,8 @@
 // taken by TLC from spec/OVMProps.tla via spec/OVMPropsTrace.tla.
 //
 // World: 3 mesh slots (GeometricPolyhedralMeshV3d / ...TetrahedralMeshV3d /
-// ...HexahedralMeshV3d), 4 handle slots (PropertyPtr<int|bool, Vertex|HalfEdge|
+// ...HexahedralMeshV3d, or the topology-only TopologicPolyhedralMesh /
+// TopologicTetrahedralMesh / TopologicHexahedralMesh), 4 handle slots (PropertyPtr<int|bool, Vertex|HalfEdge|
 // Mesh>), and a table of every property storage ever seen (weak_ptr; the index
 // in the table is the storage's identity in the trace).
 //
@@ -17,7 +18,7 @@
 //   h_copy|h_move b l=[target slot]                 h_drop b
 //   clear_props a l=[kind]   clear_all_props a   clear a f
 //   write b l=[index,value]  set_vertex a l=[vertex,p]   persist_pos a f   pos_handle a b (slot := vertex_positions())
-//   mesh_new a l=[type 1 poly 2 tet 3 hex]  mesh_copy a l=[source]  mesh_assign a l=[source]
+//   mesh_new a l=[type 1 poly 2 tet 3 hex 4 tpoly 5 ttet 6 thex (topology-only)]  mesh_copy a l=[source]  mesh_assign a l=[source]
 //   mesh_destroy a   teardown f (f: meshes first)
 //   kernel calls on mesh a: add_vertex add_edge add_face_v add_cell delete_* collect_garbage
 //   enable_* with l=[ka,kb,list...] and f
@@ -50,6 +51,9 @@ using Vec3d = OpenVolumeMesh::Geometry::Vec3d;
 using PolyM = GeometricPolyhedralMeshV3d;
 using TetM = GeometricTetrahedralMeshV3d;
 using HexM = GeometricHexahedralMeshV3d;
+using TPolyM = TopologicPolyhedralMesh;      // = TopologyKernel
+using TTetM = TopologicTetrahedralMesh;      // = TetrahedralMeshTopologyKernel
+using THexM = TopologicHexahedralMesh;       // = HexahedralMeshTopologyKernel
 
 static const int NMESH = 3, NSLOT = 4;
 
@@ -127,21 +131,31 @@ static void dump_storage_fields(Json &j, PropertyStorageBase &s) {
 
 // ---------------------------------------------------------------- meshes
 struct MeshSlot {
-    int ty = 0;   // 0 none, 1 poly, 2 tet, 3 hex
+    int ty = 0;   // 0 none, 1 poly, 2 tet, 3 hex (geometric), 4 tpoly, 5 ttet, 6 thex (topology-only)
     std::unique_ptr<PolyM> poly; std::unique_ptr<TetM> tet; std::unique_ptr<HexM> hex;
+    std::unique_ptr<TPolyM> tpoly; std::unique_ptr<TTetM> ttet; std::unique_ptr<THexM> thex;
     bool alive() const { return ty != 0; }
+    bool geometric() const { return ty >= 1 && ty <= 3; }
     TopologyKernel *tk() const {
-        return ty == 1 ? static_cast<TopologyKernel *>(poly.get()) : ty == 2 ? static_cast<TopologyKernel *>(tet.get())
-             : ty == 3 ? static_cast<TopologyKernel *>(hex.get()) : nullptr;
+        switch (ty) {
+        case 1: return poly.get(); case 2: return tet.get(); case 3: return hex.get();
+        case 4: return tpoly.get(); case 5: return ttet.get(); case 6: return thex.get();
+        }
+        return nullptr;
     }
-    void destroy() { poly.reset(); tet.reset(); hex.reset(); ty = 0; }
+    void destroy() { poly.reset(); tet.reset(); hex.reset(); tpoly.reset(); ttet.reset(); thex.reset(); ty = 0; }
+    // geometric meshes only
     template <class F> auto visit(F f) const {
+        if (!geometric()) { fprintf(stderr, "mesh type %d has no geometry\n", ty); exit(3); }
         if (ty == 1) return f(*poly);
         if (ty == 2) return f(*tet);
         return f(*hex);
     }
 };
-static const char *mtype_str(int ty) { return ty == 1 ? "poly" : ty == 2 ? "tet" : ty == 3 ? "hex" : ""; }
+static const char *mtype_str(int ty) {
+    static const char *n[7] = {"", "poly", "tet", "hex", "tpoly", "ttet", "thex"};
+    return ty >= 0 && ty <= 6 ? n[ty] : "";
+}
 
 // ---------------------------------------------------------------- handle slots
 struct HBase {
@@ -313,21 +327,36 @@ static std::string do_call(World &w, const CallRec &c) {
             MeshSlot &m = w.M(c.a);
             if (m.alive()) { fprintf(stderr, "mesh %lld already alive\n", c.a); exit(3); }
             int ty = (int)L(0);
-            if (ty == 1) m.poly.reset(new PolyM()); else if (ty == 2) m.tet.reset(new TetM()); else m.hex.reset(new HexM());
+            switch (ty) {
+            case 1: m.poly.reset(new PolyM()); break; case 2: m.tet.reset(new TetM()); break; case 3: m.hex.reset(new HexM()); break;
+            case 4: m.tpoly.reset(new TPolyM()); break; case 5: m.ttet.reset(new TTetM()); break; case 6: m.thex.reset(new THexM()); break;
+            default: fprintf(stderr, "bad mesh type %d\n", ty); exit(3);
+            }
             m.ty = ty;
             return "ok";
         }
         if (op == "mesh_copy") {
             MeshSlot &d = w.M(c.a); w.live(L(0)); MeshSlot &s = w.M(L(0));
             if (d.alive()) { fprintf(stderr, "mesh %lld already alive\n", c.a); exit(3); }
-            if (s.ty == 1) d.poly.reset(new PolyM(*s.poly)); else if (s.ty == 2) d.tet.reset(new TetM(*s.tet)); else d.hex.reset(new HexM(*s.hex));
+            switch (s.ty) {
+            case 1: d.poly.reset(new PolyM(*s.poly)); break; case 2: d.tet.reset(new TetM(*s.tet)); break; case 3: d.hex.reset(new HexM(*s.hex)); break;
+            case 4: d.tpoly.reset(new TPolyM(*s.tpoly)); break; case 5: d.ttet.reset(new TTetM(*s.ttet)); break; case 6: d.thex.reset(new THexM(*s.thex)); break;
+            }
             d.ty = s.ty;
             return "ok";
         }
         if (op == "mesh_assign") {
             w.live(c.a); w.live(L(0));
             MeshSlot &d = w.M(c.a); MeshSlot &s = w.M(L(0));
-            d.visit([&](auto &dm) { s.visit([&](auto &sm) { dm = sm; return 0; }); return 0; });
+            if (d.geometric() && s.geometric()) {
+                d.visit([&](auto &dm) { s.visit([&](auto &sm) { dm = sm; return 0; }); return 0; });
+            } else if (d.ty == s.ty) {
+                // topology-only meshes: the defaulted operator= of the same type (source taken through a
+                // reference, so that self assignment is an ordinary call)
+                if (d.ty == 4) { const TPolyM &src = *s.tpoly; *d.tpoly = src; }
+                else if (d.ty == 5) { const TTetM &src = *s.ttet; *d.ttet = src; }
+                else { const THexM &src = *s.thex; *d.thex = src; }
+            } else { fprintf(stderr, "mesh_assign between mesh types %d and %d does not compile\n", d.ty, s.ty); exit(3); }
             return "ok";
         }
         if (op == "mesh_destroy") { w.live(c.a); w.M(c.a).destroy(); return "ok"; }
@@ -426,7 +455,8 @@ static void dump_world(Json &j, World &w) {
                 per[i].push_back(w.sto.id_of((*it)->shared_from_this()));
         };
         for_each_entity(pers);
-        posh[i] = w.mesh[i].visit([&](auto &mm) { return w.sto.id_of(storage_of(mm.vertex_positions())); });
+        if (w.mesh[i].geometric())
+            posh[i] = w.mesh[i].visit([&](auto &mm) { return w.sto.id_of(storage_of(mm.vertex_positions())); });
     }
     j.begin_obj();
     // 2. meshes
@@ -453,7 +483,8 @@ static void dump_world(Json &j, World &w) {
             j.kint_arr("trk", trk[i]); j.kint_arr("per", per[i]);
             j.kv("posh", (long long)posh[i]);
             j.key("posv"); j.begin_arr();
-            w.mesh[i].visit([&](auto &mm) { for (size_t v = 0; v < mm.n_vertices(); ++v) j.val(vec_code(mm.vertex(VertexHandle((int)v)))); return 0; });
+            if (w.mesh[i].geometric())
+                w.mesh[i].visit([&](auto &mm) { for (size_t v = 0; v < mm.n_vertices(); ++v) j.val(vec_code(mm.vertex(VertexHandle((int)v)))); return 0; });
             j.end_arr();
             j.key("kern"); dump_kernel(j, m);
         }
